@@ -16,7 +16,11 @@ STEP_SLACK = 1e-12     # the quotient dt/target is itself rounded (DESIGN.md C14
 RATIO_TOL = 1e-9
 SUBSEQ_RTOL = 1e-9     # x range; the grid k/fl(1/m) is not always an exact integer
 BAND_ZERO = 1e-13      # harmonic amplitudes below BAND_ZERO*max|x| count as absent
-BAND_RTOL = 1e-10      # band-limited reproduction <= 1e-10 * max|x|
+BAND_RTOL = 1e-10      # band-limited reproduction <= 1e-10 * max|x| (float64 / integer samples)
+EPS32 = float(np.finfo(np.float32).eps)
+BAND_RTOL32 = 64 * EPS32   # float32 samples: "exactly" = to rounding of the arithmetic the samples are given in
+BAND_ZERO32 = 2 * EPS32    # float32 samples: harmonics at the level of the samples' own rounding count as absent
+FFT_ABOVE = 2048       # projection by explicit O(N^2) sums up to this length, by FFT above it
 
 
 def in_domain(n, dt, target):
@@ -109,6 +113,15 @@ def harmonics(x):
     N = len(x)
     kmax = (N - 1) // 2
     n = np.arange(N)
+    if N > FFT_ABOVE:
+        # long records: the same projection sums evaluated by the FFT (X_k = sum x_n exp(-2 pi i k n / N))
+        X = np.fft.rfft(x)
+        a = 2.0 / N * X.real[:kmax + 1]
+        b = -2.0 / N * X.imag[:kmax + 1]
+        a[0] = a[0] / 2.0
+        b[0] = 0.0
+        nyq = float(X.real[N // 2] / N) if N % 2 == 0 else 0.0
+        return a, b, nyq
     k = np.arange(kmax + 1)
     # phase k*n/N reduced exactly in integer arithmetic before the multiplication by 2 pi
     ph = 2.0 * np.pi * (np.outer(k, n) % N) / N
@@ -120,9 +133,9 @@ def harmonics(x):
     return a, b, nyq
 
 
-def band_index(a, b, nyq, scale):
+def band_index(a, b, nyq, scale, zero=BAND_ZERO):
     """Largest harmonic index present in the samples (N/2 if the alternating component is present)."""
-    thr = BAND_ZERO * scale
+    thr = zero * scale
     amp = np.hypot(a, b)
     nz = np.flatnonzero(amp > thr)
     K = int(nz[-1]) if nz.size else 0
